@@ -181,7 +181,7 @@ PROGRAMS["optional"] = {
 from __future__ import annotations
 import qa
 import qsub.inner
-from typing import (Any, Callable, Final, Generic, Literal, NoReturn, Optional, Protocol, TypedDict, TypeVar, Union, overload)
+from typing import (Any, Callable, Final, Generic, Literal, NamedTuple, NoReturn, Optional, Protocol, TypedDict, TypeVar, Union, overload)
 from typing_extensions import (Concatenate, NotRequired, ParamSpec, ReadOnly, Required, TypeGuard, TypeIs, TypeVarTuple, Unpack)
 class HasName(Protocol):
     name: str
@@ -241,6 +241,33 @@ def ov(x: Any) -> Any: return x
 ovref = ov
 RG = Union[T, list["RG[T]"]]
 rg_use: RG[int]
+# classes whose special_alias / fallbacks / promotions are REBUILT by fixup (not deserialised)
+class Row(TypedDict, Generic[Unpack[Ts]]):
+    cols: tuple[Unpack[Ts]]
+    tag: str
+row_use: Row[str, int, bytes]
+class RowD(TypedDict, Generic[D]):
+    v: D
+rowd_use: RowD
+class RowT(TypedDict, Generic[T, Vs]):
+    a: T
+    b: Vs
+class NTT(NamedTuple, Generic[Unpack[Ts]]):
+    items: tuple[Unpack[Ts]]
+ntt_use: NTT[int, str]
+class NTG(NamedTuple, Generic[T, D]):
+    x: T
+    y: D
+ntg_use: NTG[int]
+VarAlias = tuple[int, Unpack[Ts]]
+va_use: VarAlias[str, bytes]
+type NewStyle[X] = list[X] | None
+ns_use: NewStyle[int]
+class MetaB(type): ...
+class WithMetaB(metaclass=MetaB): ...
+class SubMetaB(WithMetaB): ...
+# (mypy_extensions.i64 is deliberately not used: analysing it appends a backward promotion to the already cached
+#  builtins.int._promote, see notes/C11.md "promotion hack")
 def nr() -> NoReturn: ...
 def none() -> None: ...
 ell: Callable[..., int]
@@ -271,6 +298,11 @@ REQUIRED_FEATURES = [
     "Var.final_value", "Var.setter_type", "FuncDef.deprecated", "OverloadedFuncDef.setter_index", "TypeInfo.slots",
     "TypeInfo.tuple_type", "TypeInfo.typeddict_type", "TypeInfo.declared_metaclass", "TypeInfo.abstract_attributes",
     "TypeInfo.dataclass_transform_spec|FuncDef.dataclass_transform_spec", "TypeInfo.metadata", "TypeInfo.is_protocol",
+    # rebuilt by fixup
+    "TypeInfo.special_alias", "special_alias.alias_tvars@typeddict", "special_alias.alias_tvars@tuple",
+    "special_alias.tvar_tuple_index@typeddict", "special_alias.tvar_tuple_index@tuple", "TypeInfo.metaclass_type",
+    "TypeInfo.promote", "TypeAlias.alias_tvars", "TypeAlias.tvar_tuple_index",
+    "TypeAlias.python_3_12_type_alias", "TypeAliasType",
 ]
 
 CHILD = r'''
@@ -354,6 +386,26 @@ def attrs_of(node):
             d[k] = v
     return d
 
+def tstr(t):
+    if t is None:
+        return None
+    if isinstance(t, T.Instance) and t.type_ref is not None:
+        return "<unresolved %s>" % t.type_ref       # TypeFixer.visit_instance did not run
+    return str(t)
+
+def defn_of(t):
+    """CallableType.definition (re-linked by NodeFixer.visit_func_def / visit_decorator / visit_overloaded_func_def)"""
+    d = getattr(t, "definition", None) if t is not None else None
+    # fresh trees link a decorated function's type to the Decorator, reloaded ones to its FuncDef: same definition
+    return None if d is None else getattr(d, "fullname", "?")
+
+def alias_rec(a):
+    if a is None:
+        return None
+    return {"fullname": a.fullname, "target": tstr(a.target) if "TypedDict(" not in str(a.target) else ["<TypedDict>", type_detail(a.target)],
+            "alias_tvars": [tstr(v) for v in a.alias_tvars], "tvar_tuple_index": a.tvar_tuple_index,
+            "no_args": a.no_args, "normalized": a.normalized, "python_3_12_type_alias": a.python_3_12_type_alias}
+
 def walk_flags(tree):
     """independent attribute-wise walk: every bool attribute of every symbol / node reachable through symbol tables"""
     out = {}
@@ -366,8 +418,8 @@ def walk_flags(tree):
             if sym.no_serialize:
                 continue
             key = prefix + "." + name
-            rec = {"sym": attrs_of(sym)}
-            node = sym.node
+            node = sym.node          # forces resolution of a pending cross reference / lazily stored node
+            rec = {"sym": attrs_of(sym), "cross_ref": sym.cross_ref}
             rec["cls"] = type(node).__name__
             if node is not None and not isinstance(node, N.MypyFile):
                 fn = node.fullname
@@ -383,10 +435,34 @@ def walk_flags(tree):
                             rec["impl"] = attrs_of(node.impl.func if isinstance(node.impl, N.Decorator) else node.impl)
                     if isinstance(node, N.TypeInfo):
                         rec["mro"] = [c.fullname for c in node.mro]
+                        rec["mro_refs_pending"] = node._mro_refs
                         rec["bases"] = [str(b) for b in node.bases]
                         rec["abstract"] = list(map(list, node.abstract_attributes))
                         rec["slots"] = sorted(node.slots) if node.slots is not None else None
+                        # objects that fixup REBUILDS (not deserialised): special_alias, promotions, metaclasses, fallbacks
+                        rec["special_alias"] = alias_rec(node.special_alias)
+                        rec["promote"] = sorted(tstr(p) for p in node._promote)
+                        for a in ("alt_promote", "metaclass_type", "declared_metaclass", "self_type"):
+                            rec[a] = tstr(getattr(node, a))
+                        rec["tuple_type"] = None if node.tuple_type is None else [tstr(node.tuple_type), tstr(node.tuple_type.partial_fallback), type_detail(node.tuple_type)]
+                        rec["typeddict_type"] = None if node.typeddict_type is None else [tstr(node.typeddict_type), tstr(node.typeddict_type.fallback), type_detail(node.typeddict_type)]
+                        rec["defn_type_vars"] = [tstr(v) + "=" + tstr(getattr(v, "default", None)) for v in node.defn.type_vars]
                         table(node.names, key, modname)
+                    if isinstance(node, N.TypeAlias):
+                        rec["alias"] = alias_rec(node)
+                    if isinstance(node, (N.TypeVarExpr, N.ParamSpecExpr, N.TypeVarTupleExpr)):
+                        rec["tvar_like"] = [tstr(node.upper_bound), tstr(node.default), [tstr(v) for v in getattr(node, "values", [])],
+                                            tstr(getattr(node, "tuple_fallback", None))]
+                    if isinstance(node, (N.FuncDef, N.OverloadedFuncDef, N.Decorator, N.Var)):
+                        inf = getattr(node, "info", None)          # set from SymbolTableNode.stored_info for lazily read nodes
+                        rec["info"] = inf.fullname if isinstance(inf, N.TypeInfo) and not isinstance(inf, N.FakeInfo) and inf.fullname else None
+                    if isinstance(node, N.Decorator):
+                        rec["links"] = [node.func.fullname, node.var.fullname, defn_of(node.var.type), defn_of(node.func.type)]
+                    if isinstance(node, N.FuncDef):
+                        rec["definition"] = defn_of(node.type)
+                    if isinstance(node, N.OverloadedFuncDef):
+                        rec["definition"] = [defn_of(t) for t in node.type.items] if isinstance(node.type, T.Overloaded) else None
+                        rec["item_names"] = [i.fullname for i in node.items] + [node.impl.fullname if node.impl else None]
                     if isinstance(node, (N.Var, N.FuncDef)) and node.type is not None:
                         ts = str(node.type)
                         # TypedDict item order is reported once, by the serialize() comparison (known finding)
@@ -432,6 +508,7 @@ def _type_rec(t0, ctx0, feats, seen, detail=False):
         n = type(t).__name__
         def f(x): feats.add(n + "." + x)
         if isinstance(t, T.Instance):
+            if t.type_ref is not None: feats.add("UNRESOLVED Instance.type_ref=" + str(t.type_ref))
             if t.args: f("args")
             if t.last_known_value is not None: f("last_known_value")
             if t.extra_attrs is not None:
@@ -491,6 +568,8 @@ def _type_rec(t0, ctx0, feats, seen, detail=False):
             rec(t.item, ctx)
         elif isinstance(t, T.TypeAliasType):
             feats.add("TypeAliasType")
+            if t.type_ref is not None: feats.add("UNRESOLVED TypeAliasType.type_ref=" + str(t.type_ref))
+            if detail and t.alias is not None: feats.add("alias->" + t.alias.fullname)
             if t.args: f("args")
             rec(t.args, ctx)
         elif isinstance(t, T.UnpackType):
@@ -541,13 +620,20 @@ def type_features(tree, feats):
                         seen.discard(id(ty))
                     rec(ty, [])
                 elif isinstance(p, N.TypeInfo):
-                    for a in ("slots", "tuple_type", "typeddict_type", "declared_metaclass", "alt_promote", "self_type", "deprecated", "dataclass_transform_spec"):
+                    for a in ("slots", "tuple_type", "typeddict_type", "declared_metaclass", "metaclass_type", "alt_promote", "self_type", "deprecated", "dataclass_transform_spec", "special_alias"):
                         if getattr(p, a) is not None: feats.add("TypeInfo." + a)
+                    if p.special_alias is not None:
+                        kind = "typeddict" if p.typeddict_type is not None else "tuple"
+                        if p.special_alias.alias_tvars: feats.add("special_alias.alias_tvars@" + kind)
+                        if p.special_alias.tvar_tuple_index is not None: feats.add("special_alias.tvar_tuple_index@" + kind)
                     for a in ("abstract_attributes", "metadata", "deletable_attributes", "_promote", "is_protocol", "is_enum", "is_named_tuple", "is_newtype", "is_final", "runtime_protocol"):
                         if getattr(p, a): feats.add("TypeInfo." + a.lstrip("_"))
                     rec([p.bases, p._promote, p.tuple_type, p.typeddict_type, p.declared_metaclass, p.metaclass_type, p.self_type, p.alt_promote, p.defn.type_vars], [])
                     table(p.names)
                 elif isinstance(p, N.TypeAlias):
+                    if p.alias_tvars: feats.add("TypeAlias.alias_tvars")
+                    if p.tvar_tuple_index is not None: feats.add("TypeAlias.tvar_tuple_index")
+                    if p.python_3_12_type_alias: feats.add("TypeAlias.python_3_12_type_alias")
                     rec(p.target, []); rec(p.alias_tvars, [])
                 elif isinstance(p, N.TypeVarExpr):
                     rec([p.values, p.upper_bound, p.default], [])
@@ -651,6 +737,19 @@ for ff in (True, False):
                 finally:
                     T.write_type_map = orig
             res["problems"].append({"kind": kind, "fmt": fmt, "module": i, "len": [len(b1), len(b2)]})
+        # synthesized methods (NamedTuple.__new__, dataclass __init__, ...) have no CallableType.definition in a fresh tree
+        # while fixup always links one: a link the fresh tree does not have is not required of the reloaded tree
+        for key_, r1 in fl1.items():
+            r2 = fl2.get(key_)
+            if not isinstance(r2, dict):
+                continue
+            if "definition" in r1 and "definition" in r2:
+                if r1["definition"] is None:
+                    r2["definition"] = None
+                elif isinstance(r1["definition"], list) and isinstance(r2["definition"], list) and len(r1["definition"]) == len(r2["definition"]):
+                    r2["definition"] = [b if a is not None else None for a, b in zip(r1["definition"], r2["definition"])]
+            if "links" in r1 and "links" in r2:
+                r2["links"] = [b if a is not None else None for a, b in zip(r1["links"], r2["links"])]
         if fl1 != fl2:
             out = []
             diff(fl1, fl2, i, out)
@@ -1315,7 +1414,8 @@ def roundtrip_stage(ctx: vlib.Ctx) -> None:
                         mod = mod[:-9]
                     fm[mod] = os.path.join("src", rel)   # relative to the child's cwd: MypyFile.path is part of the serialized interface
                 jobs.append((f"prog:{pn}{tag}", {"root": root, "modules": [], "files": fm, "mypy_path": ["src"], "allow_errors": True,
-                                                 "keep_data_below": 0 if tag else 70000, "feature_modules": sorted(fm)}, seed))
+                                                 "keep_data_below": 0 if tag else 70000,
+                                                 "feature_modules": sorted(fm) + ["builtins"]}, seed))
         with ThreadPoolExecutor(max_workers=min(vlib.NPROC, 8)) as ex:
             results = list(ex.map(lambda j: run_child(j[1], j[2], work), jobs))
         by_name: dict[str, dict[str, Any]] = {}
@@ -1517,6 +1617,10 @@ def run(ctx: vlib.Ctx) -> None:
             if (set(js) ^ set(bn)) - exc:
                 ctx.broke("T", f"formats of {c}", f"JSON-only attributes {sorted(set(js) - set(bn) - exc)}, binary-only {sorted(set(bn) - set(js) - exc)}")
         ctx.cov["format_tables"] = {"classes": len(res["format_fields"]), "exceptions": t11.FORMAT_EXCEPTIONS}
+        ctx.cov["fixup_attribute_coverage"] = {a: (t11.WALK_COVERAGE.get(a) or "NOT COVERED") for a in res["fixup_assigns"]}
+        for a in res["fixup_assigns"]:
+            if a not in t11.WALK_COVERAGE:
+                ctx.broke("T", "fixup coverage", f"mypy/fixup.py assigns or rebuilds `{a}`, which the structural walk does not compare")
         must = {"CacheMeta", "CacheMetaEx", "Var", "FuncDef", "TypeInfo", "MypyFile", "CallableType", "TypeVarType", "helper_errors"}
         missing = must - set(res["schemas"])
         if missing:
